@@ -114,7 +114,10 @@ def parseSolution (j : Json) : R Solution := do
 def setIdx (l : List Json) (i : Nat) (v : Json) : List Json := if i < l.length then l.set i v else l ++ [v]
 
 def applyPatch (sp sol m : Json) : R (Json × Json) := do
-  let mut sol := sol
+  -- "sol": the whole solution document is replaced (clean structural mutants re-rendered by the real writer)
+  let mut sol := match m.getObjVal? "sol" with
+    | .ok (Json.obj kvs) => Json.obj kvs
+    | _ => sol
   match m.getObjVal? "set" with
   | .ok (Json.obj kvs) =>
     for (k, v) in kvs.toList do
@@ -193,7 +196,10 @@ def handle (j : Json) : R (List (String × Json)) := do
     modelMuts := modelMuts ++ [codesJson P2 S2]
     let v := Spec.validSolution P2 S2
     let sup := Spec.supported P2 S2
-    mutValid := mutValid ++ [Json.mkObj [("valid", Json.bool v), ("supported", Json.bool sup)]]
+    -- the rules of the specification the mutant breaks (a clean structural mutant breaks "partition" only)
+    let failing := ((Spec.parts P2 S2).filter (fun p => !p.2)).map (fun p => Json.str p.1)
+    mutValid := mutValid ++ [Json.mkObj [("valid", Json.bool v), ("supported", Json.bool sup),
+                                         ("fail", Json.arr failing.toArray)]]
     let implM := implMuts.getD idx ["<missing>"]
     let name := s!"{(strF m "cls").toOption.getD "?"}@{(strF m "site").toOption.getD "?"}"
     if sup && v && !implM.isEmpty then
